@@ -14,7 +14,7 @@
 From Coq Require Import List ZArith Bool NArith.
 Import ListNotations.
 
-Inductive exn := IndexError | TypeError | OverflowError.
+Inductive exn := IndexError | TypeError | OverflowError | KeyError.
 
 Inductive access (T : Type) :=
 | Ok (x : T)
@@ -443,6 +443,57 @@ Arguments SFrameOut {A}. Arguments SBad {A}. Arguments obj_step {A}. Arguments N
 Arguments On {A}. Arguments sess_step {A}. Arguments sess_run {A}. Arguments sess_state {A}.
 Arguments actions_on {A}. Arguments obj_after {A}.
 
+(* ---- orso.row.extract_columns (row.py:49-68): the plain-Python definition kept beside the compiled
+   collector, as it is written: one output list per REQUESTED column (by position in the request, so a
+   column requested twice - or through equal-but-distinct keys 1 / True / 1.0 - gives two lists), filled
+   row by row with row[column] in the order rows-then-columns; the first row[column] that raises ends
+   the call.  row[column] is Python subscription: a tuple / list takes an int (bool included) with
+   wrap-around of negative positions, anything else is a TypeError; a dict takes a hashable key
+   (KeyError when absent); None is not subscriptable. ---- *)
+Section PyDef.
+Variable A : Type.                 (* cells *)
+Variable K : Type.                 (* dictionary keys, up to Python equality *)
+Variable keq : K -> K -> bool.
+
+Inductive prow :=
+| PTuple (l : list A)              (* tuple or list *)
+| PDict (d : list (K * A))
+| PNone.
+
+(* a requested column as Python sees it: its value as a sequence position (ints and bools), its
+   identity as a dictionary key (hashable objects) *)
+Record pcol := PCol { as_index : option Z; as_key : option K }.
+
+(* l[c] for a tuple / list *)
+Definition py_index (l : list A) (c : Z) : option A :=
+  let n := Z.of_nat (length l) in
+  if ((c <? - n) || (n <=? c))%Z then None
+  else nth_error l (Z.to_nat (if (c <? 0)%Z then c + n else c)).
+
+Definition py_item (r : prow) (c : pcol) : access A :=
+  match r with
+  | PTuple l => match as_index c with
+                | Some z => match py_index l z with Some v => Ok v | None => Raise IndexError end
+                | None => Raise TypeError
+                end
+  | PDict d => match as_key c with
+               | Some k => match lookup keq d k with Some v => Ok v | None => Raise KeyError end
+               | None => Raise TypeError
+               end
+  | PNone => Raise TypeError
+  end.
+
+Definition extract_columns_py (rows : list prow) (cols : list pcol) : access (list (list A)) :=
+  bind (mapM (fun r => mapM (py_item r) cols) rows)
+       (fun picked => Ok (transpose (length cols) picked)).
+
+Definition int_col (z : Z) : pcol := PCol (Some z) None.
+
+End PyDef.
+Arguments PTuple {A K}. Arguments PDict {A K}. Arguments PNone {A K}. Arguments PCol {K}.
+Arguments as_index {K}. Arguments as_key {K}. Arguments py_index {A}. Arguments py_item {A K}.
+Arguments extract_columns_py {A K}. Arguments int_col {K}.
+
 (* ---- calculate_data_width (compiled.pyx:157-168) ----
    An element is None, or an object with its rendering str(v) as code points. *)
 Fixpoint width_loop (vals : list (option (list N))) (max_width : Z) : Z :=
@@ -462,6 +513,7 @@ Inductive obs :=
 | OIndexError
 | OTypeError
 | OOverflowError
+| OKeyError
 | OOtherExc                    (* some other Python exception *)
 | ODied.                       (* the sacrificial process was killed *)
 
@@ -474,6 +526,7 @@ Definition obs_matches (m : access (list (list Z))) (o : obs) : bool :=
   | Raise IndexError, OIndexError => true
   | Raise TypeError, OTypeError => true
   | Raise OverflowError, OOverflowError => true
+  | Raise KeyError, OKeyError => true
   | UB, ODied => true            (* a model UB is never acceptable as a normal outcome *)
   | _, _ => false
   end.
@@ -573,3 +626,19 @@ Definition c10_sess_check (c : list (sop Z) * list sobs) : bool :=
   let '(ops, os) := c in souts_match (sess_run Z.eqb 0%Z [] ops) os.
 Definition c10_sess_show (c : list (sop Z) * list sobs) :=
   let '(ops, os) := c in sess_run Z.eqb 0%Z [] ops.
+
+(* ---- the plain-Python definition, run beside the compiled collector (stream "pydef") ----
+   observed: what extract_columns returned / raised and, when the harness also made the compiled call
+   on the same tuple rows and int32-representable indexes, what collect_cython returned / raised *)
+Definition prow_to_rowobj (r : prow Z Z) : rowobj Z :=
+  match r with PTuple l => RTuple l | _ => RNone end.
+
+Definition c10_pydef_check (c : list (prow Z Z) * list (pcol Z) * obs * option (list Z * obs)) : bool :=
+  let '(rows, cols, o, native) := c in
+  obs_matches (extract_columns_py Z.eqb rows cols) o &&
+  match native with
+  | None => true
+  | Some (icols, o') => obs_matches (collect (map prow_to_rowobj rows) icols (-1)%Z) o'
+  end.
+Definition c10_pydef_show (c : list (prow Z Z) * list (pcol Z) * obs * option (list Z * obs)) :=
+  let '(rows, cols, o, native) := c in extract_columns_py Z.eqb rows cols.
